@@ -151,13 +151,14 @@ def main(tier, seed):
     rep.rule = ('(N,d) grid for generate_multi_indices / convert_multi_indices_to_pos / generate_Gamma_and_rays, random (i,k) for '
                 'increment, random rational x and j for multi_index_binomial; non-trivial = N>=2 and d>=2 for list/matrix cases, at least one '
                 'non-zero component for vector cases; distinct by (kind, arguments)')
-    rep.assumptions = ['unbounded interpolation identity (Griewank-Utke-Walther) is not re-proved: bounded theorem N<=4, d<=5 only',
+    rep.assumptions = ['the interpolation identity is proved for every N, d for the default seed matrix S = identity; a user-supplied S is covered by the rays = J.S predicate only',
                        'Gamma entries are compared with tolerance 2^-30*d^d (float64 evaluation of an alternating sum in the implementation)']
     rep.theorems()
     rng = lib.rng_for(seed, PID)
     nd_mi, nd_gamma, incr, bins = cases(tier, rng)
     terms, meta, verdicts, logs = run_cases(rep, nd_mi, nd_gamma, incr, bins)
     judge(rep, terms, meta, verdicts, logs)
+    histories(rep, rng, tier)
     return rep.finish()
 
 
@@ -213,3 +214,62 @@ def replay(path):
     terms, meta, verdicts, logs = run_cases(rep, nd_mi, nd_gamma, incr, bins)
     judge(rep, terms, meta, verdicts, logs)
     return rep.finish()
+
+
+def histories(rep, rng, tier):
+    """the generators are functions of their arguments: call sequences mixing seeded (S given) and default calls, repeated calls,
+    callers that modify what they were handed, and the tensor drivers that call the generator internally; every result is compared
+    with rays = J.S, with the Gamma of the first default call, and with the known tensor of a monomial"""
+    import algopy.exact_interpolation as m
+    import algopy
+    n = 12 if tier == 'quick' else 120
+    first = {}
+    for _ in range(n):
+        N = rng.randint(1, 3); d = rng.randint(1, 4)
+        J = numpy.array(m.generate_multi_indices(N, d), dtype=float)
+        seq = [rng.choice(['default', 'seeded', 'default', 'mutate', 'tensor']) for _ in range(rng.randint(2, 5))]
+        for step, what in enumerate(seq):
+            rep.count('history:call', what)
+            rep.case(('history', N, d, tuple(seq[:step + 1]), rng.random()), step >= 1, sample=dict(check='call history', N=N, d=d, calls=seq[:step + 1]))
+            payload = dict(kind='history', N=N, d=d, calls=seq[:step + 1])
+            try:
+                if what == 'tensor':
+                    x = numpy.array([rng.randint(-2, 2) for _ in range(N)], dtype=float)
+                    alpha = [int(v) for v in J[rng.randrange(len(J))]]
+
+                    def f(z):
+                        acc = None
+                        for i in range(N):
+                            if alpha[i]:
+                                t = z[i] ** alpha[i]
+                                acc = t if acc is None else acc * t
+                        return acc
+                    got = numpy.asarray(algopy.UTPM.extract_tensor(N, f(algopy.UTPM.init_tensor(d, x)), as_full_matrix=False)).reshape(-1)
+                    exp = numpy.array([1.0 if [int(v) for v in j] == alpha else 0.0 for j in J])
+                    if got.shape != exp.shape or not numpy.allclose(got, exp, atol=1e-8 * d ** d):
+                        rep.violation('history:tensor', 'extract_tensor of the monomial x^%s after calls %s: %s instead of the unit vector' % (alpha, seq[:step], got.tolist()), payload)
+                        break
+                    continue
+                if what == 'seeded':
+                    M_ = rng.randint(1, 3)
+                    S = numpy.array([[rng.randint(-2, 2) for _ in range(M_)] for _ in range(N)], dtype=float)
+                    G, rays = m.generate_Gamma_and_rays(N, d, S)
+                    want = J @ S
+                else:
+                    G, rays = m.generate_Gamma_and_rays(N, d)
+                    want = J
+                if rays.shape != want.shape or not numpy.array_equal(rays, want):
+                    rep.violation('history:rays', 'generate_Gamma_and_rays(%d,%d%s) after calls %s returns rays != J.S' % (N, d, ', S' if what == 'seeded' else '', seq[:step]),
+                                  dict(payload, rays=numpy.asarray(rays).tolist(), want=want.tolist()))
+                    break
+                if what != 'seeded':
+                    key = (N, d)
+                    if key in first and not numpy.array_equal(G, first[key]):
+                        rep.violation('history:Gamma', 'generate_Gamma_and_rays(%d,%d) returns a different Gamma than its first call, after calls %s' % (N, d, seq[:step]), payload)
+                        break
+                    first.setdefault(key, numpy.array(G, copy=True))
+                if what == 'mutate':
+                    G[...] = 7.0; rays[...] = -1.0        # a caller scribbling on its own result must not affect later calls
+            except Exception as e:
+                rep.violation('history:exception', 'call %s after %s raises %r' % (what, seq[:step], e), dict(payload, exc=repr(e)))
+                break
